@@ -177,7 +177,7 @@ impl<'de> Deserialize<'de> for KmerMinHash {
             ksize: tmpsig.ksize,
             seed: tmpsig.seed,
             max_hash: tmpsig.max_hash,
-            md5sum: Mutex::new(Some(tmpsig.md5sum)),
+            md5sum: Mutex::new(None),
             mins,
             abunds,
             hash_function,
@@ -1111,7 +1111,7 @@ impl<'de> Deserialize<'de> for KmerMinHashBTree {
             ksize: tmpsig.ksize,
             seed: tmpsig.seed,
             max_hash: tmpsig.max_hash,
-            md5sum: Mutex::new(Some(tmpsig.md5sum)),
+            md5sum: Mutex::new(None),
             mins,
             abunds,
             hash_function,
